@@ -3,7 +3,7 @@
    helper registration are decided by the check on the real planner (every emitted sub-request is validated by the
    receiving evaluating fake against ITS OWN schema; coverage/helpers through C01's single-server equality). *)
 From Coq Require Import List String Bool Arith.
-From Pebbles Require Import Base.Json Plan.Vars Plan.VarsProofs Plan.Header Plan.HeaderProofs Merge.Model Plan.Steps Plan.StepsProofs Plan.StepsCount Plan.PlanCount Plan.Sanitize Plan.SanitizeProofs.
+From Pebbles Require Import Base.Json Plan.Vars Plan.VarsProofs Plan.Header Plan.HeaderProofs Merge.Model Plan.Steps Plan.StepsProofs Plan.StepsCount Plan.PlanCount Plan.Sanitize Plan.SanitizeProofs Plan.EndToEnd.
 Import ListNotations.
 Open Scope string_scope.
 
@@ -166,6 +166,19 @@ Theorem selected_response_keys_survive_sanitizing : forall tm sc ss ip a n ty d 
   In (SanField a n ty d sub) ss -> has_alias (fst (sanitize tm sc ss ip)) a.
 Proof. exact selected_response_keys_survive. Qed.
 
+(* sanitizer and planner composed: for an operation written without fragments in which no field has a root type, the
+   plan made from the sanitized selection consists of steps that ask their service only for its own fields — the
+   shape hypothesis of the planner theorem is a consequence here, not a premise *)
+Theorem plain_operations_are_planned_into_owned_steps : forall tm sc ps urls parent input fuel steps,
+  (forall q n, tm_get tm q n <> Some internal_service) -> (forall q, tm_get tm q "id" = None) ->
+  (forall i, mem i (ps_interfaces ps) = true -> tm_is_node tm i = None) ->
+  (forall t d, In d (possible ps t) -> is_root d = false) ->
+  is_root parent = true -> mem parent (ps_interfaces ps) = false ->
+  forallb plain input = true ->
+  plan_root fuel tm ps urls parent (map erase (fst (sanitize tm sc input []))) = Ok steps ->
+  Forall (fun st => s_url st <> internal_service -> step_ok tm st) steps.
+Proof. intros tm sc ps urls parent input fuel steps H1 H2 H3 H4. exact (EndToEnd.plain_operations_are_planned_into_owned_steps tm sc ps urls parent input fuel steps H1 H2 H3 H4). Qed.
+
 Example c02_sanitize_nonvacuous :
   sanitize SanitizeProofs.ex_tm ex_sc ex_in [] =
   ([SanField "me" "me" "Human" 0 [id_helper; SanField "name" "name" "String" 0 [];
@@ -200,3 +213,4 @@ Print Assumptions helpers_added_to_a_field_are_registered.
 Print Assumptions only_the_two_helpers_are_added.
 Print Assumptions a_helper_is_added_only_when_missing.
 Print Assumptions selected_response_keys_survive_sanitizing.
+Print Assumptions plain_operations_are_planned_into_owned_steps.
